@@ -2,6 +2,7 @@ import GixModel.Lemmas.C09Build
 import GixModel.Lemmas.C09Midx
 import GixModel.Lemmas.C09MidxWinner
 import GixModel.Lemmas.C09Bytes
+import GixModel.Lemmas.C09Total
 /-
 C09 — Pack and multi-pack index lookups agree with a linear scan.  PROPERTY THEOREMS ONLY.
 
@@ -185,7 +186,7 @@ theorem bytes_roundtrip (es : List Entry) (he : Entries es) (hr : Representable 
       ∀ i (h : i < (sortById es).length),
         f.oidAt i = some (sortById es)[i].id ∧ f.offsetAt i = some (sortById es)[i].offset ∧
         f.crcAt i = some (some (sortById es)[i].crc) := by
-  obtain ⟨x, hb, hids, hcrcs, hok, hn, hofs, ho32len, ho32b, ho64, hfanlen, hfanb⟩ :=
+  obtain ⟨x, hb, hids, hcrcs, hok, hn, hofs, ho32len, ho32b, ho64, hfanlen, hfanb, hfmono, ho64len⟩ :=
     build_spec es he.len20 he.distinct he.small
   have hlen : (sortById es).length = es.length := (sortById_perm es).length_eq
   have hidslen : x.ids.length = es.length := by rw [hids, List.length_map, hlen]
@@ -205,7 +206,9 @@ theorem bytes_roundtrip (es : List Entry) (he : Entries es) (hr : Representable 
     ofs64U64 := by
       intro v hv
       obtain ⟨e, hmem, rfl⟩ := ho64 v hv
-      exact hr.ofs64 e hmem }
+      exact hr.ofs64 e hmem
+    fanMono := hfmono
+    ofs64Len := by rw [hidslen]; exact ho64len }
   refine ⟨x, fileOf x ph ih, hb, File.at_encode x henc ph ih hph hih, rfl, hidslen, ?_, ?_⟩
   · have hget : ∀ i (h : i < x.ids.length), (fileOf x ph ih).oidAt i = some x.ids[i] :=
       fun i h => fileOf_oidAt x henc ph ih i h
@@ -253,6 +256,76 @@ theorem file_lookup_prefix_eq_linear (es : List Entry) (he : Entries es) (hr : R
     simpa using this
   · rw [File.lookupPrefix, hn, ← hl]; exact hw
   · rw [File.lookupPrefix, hn, ← hl]; exact hwo
+
+/-! ### any byte string: `index::File::at` and the accessors (V1 and V2) -/
+
+/-- `index::File::at` never panics, whatever the bytes. -/
+theorem index_file_at_total (data : Bytes) : ∃ r, File.at data = some r := by
+  obtain ⟨r, hr, _⟩ := File.at_total data
+  exact ⟨r, hr⟩
+
+/-- Exactly what is accepted (repo commit fc8bff3e9): at least an empty index; V2 signature ⇒
+version 2, otherwise read as V1; the fan-out table monotonic; and the file size fitting the object
+count `fan[255]` — V1: exactly `1024 + n*24 + 40`, V2: `1032 + n*28 + 40` plus at most `n` 64-bit
+offsets. Nothing else is checked: unsorted ids, wrong checksums and 64-bit escape indices pointing
+anywhere are accepted. -/
+theorem index_file_at_accepts (data : Bytes) (f : File) (h : File.at data = some (.ok f)) :
+    f.data = data ∧ f.hashLen = 20 ∧ f.fan.length = 256 ∧ fanMonotone f.fan = true ∧
+      f.fan[255]? = some f.numObjects ∧
+      (f.v2 = true → 1032 + f.numObjects * 28 + 40 ≤ data.length ∧ data.length ≤ 1032 + f.numObjects * 28 + 40 + f.numObjects * 8) ∧
+      (f.v2 = false → data.length = 1024 + f.numObjects * 24 + 40) := by
+  obtain ⟨r, hr, h2⟩ := File.at_total data
+  rw [h] at hr; injection hr with hr
+  obtain ⟨hd, ha⟩ := h2 f hr.symm
+  refine ⟨hd, ha.hash20, ha.fanLen, ha.mono, ha.count, ?_, ?_⟩
+  · intro hv; rw [← hd]; exact ha.sizeV2 hv
+  · intro hv; rw [← hd]; exact ha.sizeV1 hv
+
+/-- On ANY accepted index file (V1 or V2, ids sorted or not): `oid_at_index` and `crc32_at_index`
+are panic-free for every entry index, and `lookup` is panic-free for every id (fewer than 2^31
+objects) and only reports entry indices below `num_objects`. -/
+theorem accepted_index_accessors_total (data : Bytes) (f : File) (h : File.at data = some (.ok f)) :
+    (∀ i, i < f.numObjects → (∃ id, f.oidAt i = some id ∧ id.length = 20) ∧ ∃ c, f.crcAt i = some c) ∧
+    (f.numObjects < 2147483648 → ∀ id : Bytes, id ≠ [] →
+      ∃ r, f.lookup id = some r ∧ ∀ i, r = some i → i < f.numObjects) := by
+  obtain ⟨r, hr, h2⟩ := File.at_total data
+  rw [h] at hr; injection hr with hr
+  obtain ⟨_, ha⟩ := h2 f hr.symm
+  exact ⟨fun i hi => ⟨File.oidAt_total ha hi, File.crcAt_total ha hi⟩, fun hs id hid => File.lookup_total ha hs id hid⟩
+
+/-- `pack_offset_at_index` on an accepted file, exactly: V1 entries and V2 entries without the high
+bit always succeed; a V2 entry with the high bit succeeds if and only if the 64-bit slot it names
+lies inside the file — the one inconsistency `File::at` cannot rule out without reading every entry
+(the accessor returns a plain `u64`, there is no error channel: it panics). -/
+theorem accepted_index_offset_at (data : Bytes) (f : File) (h : File.at data = some (.ok f))
+    (i : Nat) (hi : i < f.numObjects) :
+    (f.v2 = false → ∃ v, f.offsetAt i = some v) ∧
+    (f.v2 = true → ∃ v, (slice f.data (f.offsetOfs32 + i * 4) 4).bind readU32 = some v ∧
+      (¬ (v &&& HIGH_BIT = HIGH_BIT) → f.offsetAt i = some v) ∧
+      ((v &&& HIGH_BIT = HIGH_BIT) →
+        ((∃ o, f.offsetAt i = some o) ↔ f.offsetOfs64 + (v ^^^ HIGH_BIT) * 8 + 8 ≤ f.data.length))) := by
+  obtain ⟨r, hr, h2⟩ := File.at_total data
+  rw [h] at hr; injection hr with hr
+  obtain ⟨_, ha⟩ := h2 f hr.symm
+  exact File.offsetAt_spec ha hi
+
+/-- witnesses: a V2 index of one object (fan-out all 1) whose offset entry is `0x80000005` -/
+def exEscape : Bytes :=
+  V2_SIGNATURE ++ be32 2 ++ (List.replicate 256 1).flatMap be32 ++ List.replicate 20 0 ++ be32 7
+    ++ be32 0x80000005 ++ List.replicate 40 0
+
+-- it is accepted, its id is found, but reading the offset runs past the end of the file (panic)
+example : (File.at exEscape).map (fun r => match r with | .ok f => f.numObjects | .error _ => 99) = some 1 := by
+  decide +kernel
+example : (match File.at exEscape with
+    | some (.ok f) => (f.lookup (List.replicate 20 0), f.offsetAt 0)
+    | _ => (none, some 0)) = (some (some 0), none) := by decide +kernel
+-- the inconsistencies that used to be accepted are rejected: a fan-out that is not monotonic …
+example : (File.at (V2_SIGNATURE ++ be32 2 ++ ([5] ++ List.replicate 255 0).flatMap be32 ++ List.replicate 40 0)).map
+    (fun r => match r with | .ok _ => none | .error e => some e) = some (some .corrupt) := by decide +kernel
+-- … and a file too short for the two objects its fan-out announces
+example : (File.at (V2_SIGNATURE ++ be32 2 ++ (List.replicate 256 2).flatMap be32 ++ List.replicate 40 0)).map
+    (fun r => match r with | .ok _ => none | .error e => some e) = some (some .corrupt) := by decide +kernel
 
 /-! ### multi-pack index -/
 
